@@ -32,11 +32,12 @@ CHECKS = {
             'peer sends between two local actions.', 'simnet', 'DESIGN.md#C03'),
     'C05': (True, 'exploration',
             'bounded-exhaustive history enumeration from state-reaching prefixes + Hypothesis random walks; step-by-step differential against an executable PS3.8 model',
-            'All histories of up to 2 (quick) / 4 (thorough, millions of histories) further events from 23 prefixes that '
-            'reach every protocol state, and random walks up to 30 steps, are executed on the real provider loop '
-            'under a deterministic transport/clock, with the default and with a 48-byte read size, and compared after every step with the model: PDUs written, '
+            'All histories of up to 2 (quick) / 3 (thorough, ~400k histories) further events from 26 prefixes that '
+            'reach every protocol state, the peer pausing inside a PDU (first bytes only, rest later or never) from each prefix with every primitive / time advance / close meanwhile, '
+            'and random walks up to 30 steps (16 x 10000 in the thorough tier), are executed on the real provider loop '
+            'under a deterministic transport/clock, with own maximum PDU lengths 65536 / 0 / 48 / 4096 (read sizes), file-backed and in-memory reception, and compared after every step with the model: PDUs written, '
             'indications, transport state, ARTIM, protocol state; plus the four invariants of the statement.',
-            'Trusts vf/ulmodel.py; whole PDUs per segment; depth bound beyond which only sampling.',
+            'Trusts vf/ulmodel.py; whole PDUs per segment except the explicit pause inside one PDU; depth bound beyond which only sampling.',
             'simnet+ulmodel', 'DESIGN.md#C05'),
     'C04': (True, 'exploration',
             'exhaustive cell enumeration (13 states x 19 events x role x timer x slot variants) against a transcribed Table 9-10 + Hypothesis PDU contents',
@@ -134,7 +135,7 @@ CHECKS = {
             'modality_work_list_scp (responses read from wire bytes: count, order, statuses, identifiers, one '
             'final response without data set, query delivered unchanged) and through qr_find_scu / '
             'modality_work_list_scu / c_find() against a scripted peer (exact pairs in order, stop after the first '
-            'non-pending status, receive() calls counted).',
+            'non-pending status, receive() calls counted); handler failing mid-stream, query object re-used, C-ECHO between preparing and iterating, a second association alive meanwhile negotiated differently for the same class.',
             'Scripted provider; data sets compared by canonical re-encoding with pydicom.', 'fakedul', 'DESIGN.md#C16'),
     'C17': (True, 'exploration',
             'one Hypothesis search per provider callable (collect-then-shrink), reference-encoded requests, responses read from wire bytes',
